@@ -1,10 +1,10 @@
 import LokyModel.Props.C02
+import LokyModel.Lemmas.ExecNoBreakAll
 /-!
 # C04 — task-level failures are contained to their own future (executor protocol)
 
 Decision-logic theorems over M1: what each error path touches.  "The pool stays unbroken" in whole
-runs additionally needs the never-broken-without-a-death invariant (see `Props/C07.lean`); the E1 runs
-of the `contain` family decide it on the real code.
+runs is `C04_pool_stays_unbroken` (the never-broken-without-a-death invariant of `Lemmas/ExecNoBreak*`).
 -/
 namespace LokyModel.Exec
 
@@ -74,5 +74,18 @@ theorem C04_result_keeps_flags (s : St) (i : Wid) (e : Bool) :
     (mProcess s (some (.res i e false))).shutdownFlag = s.shutdownFlag ∧
     (mProcess s (some (.res i e false))).killFlag = s.killFlag := by
   simp
+
+/-- **The pool stays unbroken.**  Whatever mix of task-level failures — bodies that raise anything,
+    arguments that cannot be pickled or are too large, results or exceptions that cannot be pickled —
+    at whatever positions, under whatever schedule, time-outs, cancellations and shutdowns: as long as
+    no worker process dies and no payload fails to *un*-pickle, the pool is never flagged broken. -/
+theorem C04_pool_stays_unbroken (cfg : Cfg) (hb : cfg.benign) (s : St) (h : ReachableNC cfg s) :
+    s.broken = none := (nbInv_reachableNC hb h).nb
+
+/-- the hypothesis covers every task-level failure kind of the property: raising bodies and
+    un-picklable / over-sized arguments are benign -/
+def cfgContain : Cfg :=
+  { maxWorkers := 2, timeout := true, tasks := [{ body := .raises }, { args := .unpicklable }, { args := .toolarge }, { body := .raises, args := .ok }], scripts := [[.create, .submit 0, .submit 1, .submit 2, .submit 3]] }
+example : cfgContain.benign := by constructor <;> decide
 
 end LokyModel.Exec
